@@ -81,7 +81,8 @@ helper = [
  '//@   after "%s" apply lemma_an_ks(%s)' % (B1, KS1),
  '//@   after "%s" apply lemma_an_kc(%s)' % (B1, KC1),
 ]
-hints = helper + hints
+import os
+if os.environ.get('ANHELP'): hints = helper + hints   # (witness-pinning helper cuts: tried, no gain, doubled the run time: off by default)
 gen += procs + [""] + contracts + ["// END generated cuts", ""]
 # insert the lemma definitions before the contract block and the hint lines right after the contract header
 out = []
